@@ -27,9 +27,10 @@ Traces == JsonDeserialize(IOEnv.TRACE_FILE)
 VARIABLES tr, l, verdict, devby, findings
 tvars == <<vars, tr, l, verdict, devby, findings>>
 Ev == Traces[tr].events
-TInit == /\ Init /\ tr \in 1..Len(Traces)
+TInit == /\ tr \in 1..Len(Traces)          \* uri and file are fixed by the trace before Init is evaluated
          /\ uri = [t \in Threads |-> Traces[tr].uri[t]]
          /\ file = [u \in Uris |-> InitFile(Traces[tr].files[u])]
+         /\ Init
          /\ l = 1 /\ verdict = "run" /\ devby = {} /\ findings = {}
 At(e) == IF e.th \in Threads THEN pc[e.th] ELSE ""
 Report(ok, i, clause, at, dv, fnd) ==
